@@ -49,10 +49,10 @@ class C01(flatcheck.FlatCheck):
     theorems = ('TM.C01_step', 'TM.C01_history')
     streams = (
         # the domain of theorem C01_history: no raising callbacks, no re-entrant calls, unqueued, known events
-        flatcheck.Stream('main', lambda: flat.Knobs(max_models=2, p_unknown_event=0.0, max_history=10),
+        flatcheck.Stream('main', lambda: flat.Knobs(max_models=2, p_unknown_event=0.0, max_history=10, p_custom_attr=0.15, p_ignore_flip=0.2),
                          monitor=monitor, nontrivial=nontrivial, quick=(16, 400), thorough=(64, 2500)),
         # malformed / neighbouring stream: correspondence only
-        flatcheck.Stream('malformed', lambda: flat.Knobs(max_models=2, p_unknown_event=0.2, p_bad_dest=0.1,
+        flatcheck.Stream('malformed', lambda: flat.Knobs(max_models=2, p_unknown_event=0.2, p_bad_dest=0.1, p_custom_attr=0.15, p_ignore_flip=0.2,
                                                          p_raise=0.05, p_on_exception=0.3, max_history=8),
                          nontrivial=nontrivial, quick=(16, 60), thorough=(32, 600)),
     )
